@@ -51,6 +51,9 @@ RECURSIVE RightEdgeUn(_)
 RightEdgeUn(t) == CASE t.k = "bin" -> RightEdgeUn(t.r)
                     [] t.k = "un" -> {t.op} \cup RightEdgeUn(t.x)
                     [] OTHER -> {}
+(* does the left edge of t (its leftmost operand chain) end in a postfix test? *)
+RECURSIVE LeftEdgeTest(_)
+LeftEdgeTest(t) == CASE t.k = "test" -> TRUE [] t.k = "bin" -> LeftEdgeTest(t.l) [] OTHER -> FALSE
 RECURSIVE Valid(_)
 Valid(t) ==
   CASE t.k = "bin" ->
@@ -59,6 +62,9 @@ Valid(t) ==
          /\ (t.l.k = "bin" => (TopPrec(t.l) > Prec(t.op) \/ (TopPrec(t.l) = Prec(t.op) /\ LeftAssoc(t.op))))
          (* a test is postfix: its result can be the left operand of any further operator *)
          /\ (t.r.k \in {"bin", "test"} => (TopPrec(t.r) > Prec(t.op) \/ (TopPrec(t.r) = Prec(t.op) /\ ~LeftAssoc(t.op))))
+         (* a test is looser than ** : in 7 ** 2 is odd ** 3 the test applies to (7 ** 2), so no test may sit on the left
+            edge of the right operand of an operator that binds tighter than a test *)
+         /\ (LeftEdgeTest(t.r) => Prec(t.op) < TestPrec)
          (* a unary operator whose operand ends right before this operator would have taken the operator
             into its operand if it binds looser: 7 * not 2 / 3 is 7 * (not (2 / 3)) *)
          /\ \A u \in RightEdgeUn(t.l) : UnTable[u] > Prec(t.op)
